@@ -308,7 +308,7 @@ def clause_props(c):
 
 
 def report(pid, pc, tier, seed, results, extra_results, wall):
-    ev_path = os.path.join(VERIF, "evidence", pid + ".json")
+    ev_path = os.path.join(os.environ.get("VX_EVIDENCE_DIR", os.path.join(VERIF, "evidence")), pid + ".json")
     os.makedirs(os.path.dirname(ev_path), exist_ok=True)
     undecided = [r for r in results if r["status"] == "undecided"]
     my_clauses = {}
@@ -334,6 +334,9 @@ def report(pid, pc, tier, seed, results, extra_results, wall):
                 fn_of_prop.add(c["fn"])
                 if c.get("syntactic") is False:
                     syn_fail.append(cid)
+        for fn, pl in g.fn_props.items():
+            if pid in pl:
+                fn_of_prop.add(fn)
         cmds.append(r["res"]["cmd"])
         if r["res"]["json"]:
             verified_items += r["res"]["json"]["verification-results"].get("verified", 0)
@@ -421,7 +424,7 @@ def report(pid, pc, tier, seed, results, extra_results, wall):
         status, rc = "violation", 1
     n_dis = n_obl - len(violations)
     for v in real:
-        rdir = os.path.join(VERIF, "replay_out")
+        rdir = os.environ.get("VX_REPLAY_DIR", os.path.join(VERIF, "replay_out"))
         os.makedirs(rdir, exist_ok=True)
         safe = re.sub(r"[^A-Za-z0-9_.-]", "_", v["clause"])
         rp = os.path.join(rdir, "%s-%s.txt" % (pid, safe))
